@@ -2,7 +2,7 @@ use marrow::view::{BitsWithOffset, FixedSizeListView};
 use serde::de::Visitor;
 
 use crate::internal::{
-    error::{fail, set_default, Context, Result},
+    error::{fail, set_default, try_, Context, ContextSupport, Result},
     schema::get_strategy_from_metadata,
     utils::ChildName,
 };
@@ -62,17 +62,21 @@ impl<'de> RandomAccessDeserializer<'de> for FixedSizeListDeserializer<'de> {
     }
 
     fn deserialize_seq<V: Visitor<'de>>(&self, visitor: V, idx: usize) -> Result<V::Value> {
-        if idx >= self.len {
-            fail!("Out of bounds access");
-        }
-        let (Some(start), Some(end)) = (idx.checked_mul(self.n), (idx + 1).checked_mul(self.n))
-        else {
-            fail!("Out of bounds access");
-        };
-        visitor.visit_seq(ListItemDeserializer {
-            item: self.item.as_ref(),
-            start,
-            end,
+        try_(|| {
+            if idx >= self.len {
+                fail!("Out of bounds access");
+            }
+            let (Some(start), Some(end)) =
+                (idx.checked_mul(self.n), (idx + 1).checked_mul(self.n))
+            else {
+                fail!("Out of bounds access");
+            };
+            visitor.visit_seq(ListItemDeserializer {
+                item: self.item.as_ref(),
+                start,
+                end,
+            })
         })
+        .ctx(self)
     }
 }
